@@ -212,10 +212,13 @@ impl<T: ?Sized> Mutex<T> {
     /// State word and `lock_ops` listeners.
     #[doc(hidden)]
     pub fn __verif_snapshot(&self) -> crate::__verif::Snapshot {
+        crate::__verif::unrecorded(|| {
         crate::__verif::Snapshot {
             words: std::vec![self.state.load(Ordering::SeqCst)],
+            addrs: std::vec![&self.state as *const _ as usize],
             events: std::vec![crate::__verif::event(&self.lock_ops)],
         }
+        })
     }
 
     /// Pointer to the protected value, for reading it while the mutex is known to be free.
